@@ -245,3 +245,12 @@ Section Total.
     - exists g', tr. exact E.
   Qed.
 End Total.
+
+Require V.C18.Check V.C18.StubOk.
+Lemma total_hyps_stub :
+  H_core_structure V.C18.Check.stub_engine /\ H_core_total V.C18.Check.stub_engine /\ H_router_total V.C18.Check.stub_router.
+Proof.
+  split; [exact V.C18.StubOk.stub_engine_ok|]. split.
+  - intros dt g. destruct dt; discriminate.
+  - intros g es. reflexivity.
+Qed.
